@@ -155,6 +155,10 @@ def strat_accumulator(tier):
     e = draw(st.sampled_from(reg.ENTRIES))
     cfg = draw(e.cfg())
     rows = draw(st.lists(e.row(cfg), min_size=1, max_size=maxrows))
+    if draw(st.integers(0, 5)) == 0:
+      # a long batch (a short pattern repeated) crossing 2**7 / 2**8 rows
+      n = draw(st.sampled_from([127, 128, 129, 255, 256, 257, 300, 512]))
+      rows = (rows[:5] * (n // len(rows[:5]) + 1))[:n]
     case = {'entry': e.name, 'cfg': cfg, 'rows': rows}
     if e.name in _BATCHED and len(rows) >= 2 and draw(st.booleans()):
       case['cuts'] = draw(st.lists(st.integers(1, len(rows) - 1), min_size=1, max_size=3))
@@ -220,6 +224,9 @@ def strat_classification_api(tier):
     kind = draw(st.sampled_from(['cm', 'cm', 'topk', 'samples']))
     cfg = draw(reg._cm_cfg(False, topk=kind == 'topk', samplewise=kind == 'samples'))  # pylint: disable=protected-access
     rows = draw(st.lists(reg._cm_rows(cfg), min_size=1, max_size=maxrows))  # pylint: disable=protected-access
+    if draw(st.integers(0, 4)) == 0:
+      n = draw(st.sampled_from([127, 128, 129, 255, 256, 257, 300, 512]))       # a long batch crossing 2**7 / 2**8 rows
+      rows = (rows[:5] * (n // len(rows[:5]) + 1))[:n]
     if cfg['input_type'] == 'binary':
       # verify_input() demands that pos_label occurs in the data (documented ValueError otherwise)
       rows = rows + [[cfg['pos_label'], cfg['labels'][1]]]
@@ -267,6 +274,9 @@ def strat_retrieval_api(tier):
   @st.composite
   def s(draw):
     rows = draw(st.lists(reg._id_rows(False), min_size=1, max_size=maxrows))  # pylint: disable=protected-access
+    if draw(st.integers(0, 4)) == 0:
+      n = draw(st.sampled_from([127, 128, 129, 255, 256, 257, 300, 512]))       # a long batch crossing 2**7 / 2**8 rows
+      rows = (rows[:5] * (n // len(rows[:5]) + 1))[:n]
     maxlen = max(len(r[1]) for r in rows)
     # mostly k <= longest prediction list (outside the region of known finding F-C07-topk-truncation)
     kmax = draw(st.sampled_from([maxlen, maxlen, maxlen, 7]))
